@@ -3750,6 +3750,13 @@ static gboolean priv_map_reply_to_conn_check_request (NiceAgent *agent, NiceStre
 	  priv_print_conn_check_lists (agent, G_STRFUNC,
 	      ", got a nominated pair");
 
+	  /* A component that had failed (or was not connecting yet) goes
+	   * through CONNECTING first, as everywhere else */
+	  if (component->state < NICE_COMPONENT_STATE_CONNECTING ||
+	      component->state == NICE_COMPONENT_STATE_FAILED)
+	    agent_signal_component_state_change (agent,
+		stream->id, component->id, NICE_COMPONENT_STATE_CONNECTING);
+
 	  /* Do not step down to CONNECTED if we're already at state READY*/
 	  if (component->state != NICE_COMPONENT_STATE_READY)
 	    /* step: notify the client of a new component state (must be done
